@@ -14,15 +14,29 @@ Inductive case :=
          (msgs : list (Z * list (elem Z)))            (* destination replica, batch *)
          (bytes : list Z)                             (* what `remote_send` wrote, concatenated *)
          (decoded : list (Z * Z * Z * Z * list (elem Z)))
-| CIdle (pause_ms sent : Z) (got : list Z) (completed : bool).
+| CIdle (pause_ms sent : Z) (got : list Z) (completed : bool)
+| CBig (senders n : Z) (got : list (Z * Z * Z)) (completed : bool).
+             (* a whole job: [senders] replicas send n one-element messages each (every third ~70 KB) to one
+                consumer, partly over a shared TCP connection: (sender, seq, length) in arrival order *)
              (* a whole job over real TCP links that stay idle for [pause_ms]: the sorted sink content *)
              (* what `remote_recv` returned: dest block, dest host, dest replica, sender block, batch *)
 
 Definition idle_ok (sent : Z) (got : list Z) (completed : bool) : bool :=
   completed && list_eqb Z.eqb got (map Z.of_nat (seq 0 (Z.to_nat sent))).
 
+Definition big_len (i : Z) : Z := if Z.eqb (Z.modulo i 3) 2 then 70000 else 10 + i.
+Definition big_ok (senders n : Z) (got : list (Z * Z * Z)) (completed : bool) : bool :=
+  completed &&
+  forallb (fun s =>
+    list_eqb (pair_eqb Z.eqb Z.eqb)
+      (map (fun x => (snd (fst x), snd x)) (filter (fun x => Z.eqb (fst (fst x)) (Z.of_nat s)) got))
+      (map (fun i => (Z.of_nat i, big_len (Z.of_nat i))) (seq 0 (Z.to_nat n))))
+    (seq 0 (Z.to_nat senders)) &&
+  Nat.eqb (length got) (Z.to_nat (senders * n)).
+
 Definition corr_ok (c : case) : bool :=
   match c with
+  | CBig s n got completed => big_ok s n got completed
   | CIdle _ sent got completed => idle_ok sent got completed   (* a link is a reliable FIFO in the model: time does not exist *)
   | CLink l => link_corr_ok l
   | CFrame db dh pb msgs bytes decoded =>
@@ -52,6 +66,7 @@ Definition got (c : lcase) (b r : nat) : list (elem Z) := concat (impl_recv c b 
 
 Definition prop_ok (c : case) : bool :=
   match c with
+  | CBig s n got completed => big_ok s n got completed
   | CIdle _ sent got completed => idle_ok sent got completed
   | CLink l =>
       forallb (fun '(b, r) =>
